@@ -208,6 +208,7 @@ func (r descsByName) initExtensionDeclarations(xds []*descriptorpb.FieldDescript
 			if opts.Packed != nil {
 				x.L1.EditionFeatures.IsPacked = opts.GetPacked()
 			}
+			x.L1.IsLazy = opts.GetLazy()
 		}
 		x.L1.Number = protoreflect.FieldNumber(xd.GetNumber())
 		x.L1.Cardinality = protoreflect.Cardinality(xd.GetLabel())
